@@ -85,7 +85,7 @@ func FieldOfValue(v ssa.Value) *types.Var {
 	case *ssa.Field:
 		st, ok := x.X.Type().Underlying().(*types.Struct)
 		if ok {
-			return st.Field(x.Field)
+			return st.Field(x.Field).Origin()
 		}
 	case *ssa.FieldAddr:
 		return FieldOfAddr(x)
@@ -100,7 +100,7 @@ func FieldOfAddr(fa *ssa.FieldAddr) *types.Var {
 		t = pt.Elem().Underlying()
 	}
 	if st, ok := t.(*types.Struct); ok {
-		return st.Field(fa.Field)
+		return st.Field(fa.Field).Origin()
 	}
 	return nil
 }
